@@ -216,7 +216,51 @@ Section SVR.
             end
         end
     end.
+  (* call history on one object: k x next(), clone, run(), run() on the clone, run() again *)
+  Fixpoint stepk (k : nat) (i : interp tc) (n : N) : option (string * N * interp tc) :=
+    match k with
+    | O => Some ("O", n, i)
+    | S k' =>
+        match nextT i with
+        | StepNone i' => Some ("F", n, i')
+        | StepErr i' => Some ("E", n, i')
+        | StepPanic => None
+        | StepOk i' => stepk k' i' (n + 1)%N
+        end
+    end.
+  Definition full (i : interp tc) : string :=
+    show_state (istate i) +++ ";" +++ dec_of_N (N.of_nat (script_index i)) +++ ";" +++ dec_of_N (N.of_nat (length (script_bits i))).
+  Definition ran (i : interp tc) : option (string * interp tc) :=
+    match runT i with RunOk j => Some ("O", j) | RunErr j => Some ("E", j) | _ => None end.
+  Definition hist (i0 : interp tc) (k : N) : string :=
+    match stepk (N.to_nat k) i0 0%N with
+    | None => "PANIC"
+    | Some (ko, n, i) =>
+        match ran i with
+        | None => "PANIC"
+        | Some (r1, j1) =>
+            match ran j1, ran i0 with
+            | Some (r2, j2), Some (rf, jf) =>
+                let eqs (a b : list bytes) := String.eqb (show_items a) (show_items b) in
+                let same := if String.eqb rf r1 && eqs (stack (istate jf)) (stack (istate j1))
+                               && eqs (alt_stack (istate jf)) (alt_stack (istate j1)) then "1" else "0" in
+                "OK:" +++ ko +++ ";" +++ dec_of_N n +++ ";" +++ r1 +++ ";" +++ full j1 +++ ";" +++ r2 +++ ";" +++ full j2
+                +++ ";1;" +++ same +++ ";1;1;" +++ (match tx_script i with Some _ => "1" | None => "0" end)
+            | _, _ => "PANIC"
+            end
+        end
+    end.
 End SVR.
+
+(* C16 on a call history: the clone behaves like the original, running after k steps ends like a fresh run
+   (same outcome and stacks), the accessors agree, Display does not fail *)
+Definition spec_hist1 (ko r : string) : string :=
+  "OK:" +++ ko +++ ";*;" +++ r +++ ";*;*;*;*;*;*;*;" +++ r +++ ";*;*;*;*;*;*;*;1;1;1;1;*".
+Definition spec_hist : string :=
+  spec_hist1 "O" "O" +++ "~" +++ spec_hist1 "O" "E" +++ "~" +++ spec_hist1 "F" "O" +++ "~" +++ spec_hist1 "E" "E".
+(* decimal arguments must fit the driver's u64 *)
+Definition N_of_dec64 (s : string) : option N :=
+  match N_of_dec s with Some n => if (n <? 18446744073709551616)%N then Some n else None | None => None end.
 
 Definition impl_step_vs_run (bits : list bit) : string := svr notx nopre nover (start bits).
 
@@ -297,14 +341,52 @@ Definition run (op : string) (args : list string) : string :=
   | "interp.step_vs_run", [a] => with_bytes a do_svr
   | "interp.step_vs_runbits", [a] => with_tree a do_svr
   | "interp.txrun", [u; l; n] =>
-      match expand u, expand l, N_of_dec n with
+      match expand u, expand l, N_of_dec64 n with
       | Some ub, Some lb, Some idx => out3 (impl_txrun ub lb idx) (spec_step_vs_run +++ "~ERR") "-"
       | _, _, _ => "BADARG"
       end
-  | "interp.txsafe", [u; l; n; _] =>
-      match expand u, expand l, N_of_dec n with
-      | Some ub, Some lb, Some idx => out3 (impl_txsafe ub lb idx) "OK:1;1;1;1~ERR" "-"
+  | "interp.hist", [a; k] =>
+      match N_of_dec k with
+      | Some k' => if (k' <? 100000)%N then with_bytes a (fun bits _ _ => out3 (hist notx nopre nover (start bits) k') spec_hist "-") else "BADARG"
+      | None => "BADARG"
+      end
+  | "interp.histbits", [a; k] =>
+      match N_of_dec k with
+      | Some k' => if (k' <? 100000)%N then with_tree a (fun bits _ _ => out3 (hist notx nopre nover (start bits) k') spec_hist "-") else "BADARG"
+      | None => "BADARG"
+      end
+  | "interp.histtx", [u; l; k] =>
+      match expand u, expand l, N_of_dec k with
+      | Some ub, Some lb, Some k' =>
+          if (k' <? 100000)%N then
+            out3 (match from_bytes ub, from_bytes lb with
+                  | Ok ubits, Ok lbits =>
+                      match from_bytes (to_bytes ubits ++ to_bytes lbits) with
+                      | Ok bits => hist unit gpre gver (from_script_bits unit bits (Some tt)) k'
+                      | Err => "ERR" | Panic => "PANIC"
+                      end
+                  | Panic, _ | _, Panic => "PANIC"
+                  | _, _ => "ERR"
+                  end) (spec_hist +++ "~ERR") "-"
+          else "BADARG"
       | _, _, _ => "BADARG"
+      end
+  | "interp.histtxbits", [u; l; t; n; k] =>
+      match expand u, expand l, parse_tree t, N_of_dec64 n, N_of_dec k with
+      | Some ub, Some lb, Some bits, Some _, Some k' =>
+          if (k' <? 100000)%N then
+            out3 (match from_bytes ub, from_bytes lb with
+                  | Ok _, Ok _ => hist unit gpre gver (from_script_bits unit bits (Some tt)) k'
+                  | Panic, _ | _, Panic => "PANIC"
+                  | _, _ => "ERR"
+                  end) (spec_hist +++ "~ERR") "-"
+          else "BADARG"
+      | _, _, _, _, _ => "BADARG"
+      end
+  | "interp.txsafe", [u; l; n; m] =>
+      match expand u, expand l, N_of_dec64 n, N_of_dec64 m with
+      | Some ub, Some lb, Some idx, Some _ => out3 (impl_txsafe ub lb idx) "OK:1;1;1;1~ERR" "-"
+      | _, _, _, _ => "BADARG"
       end
   | _, _ => "BADOP"
   end.
